@@ -100,9 +100,12 @@ PLAN = {
         "traces": [T("fma", (1500, 40000), (4, 8), "std"), T("fma", (1500, 40000), (4, 8), "nostd"),
                    T("arith_all", (80, 2000), (4, 8), "std"), T("arith_all", (80, 2000), (4, 8), "nostd"),
                    T("arith_new", (150, 3000), (4, 8), "std"), T("arith_new", (150, 3000), (4, 8), "nostd"),
+                   T("elem_all", (2500, 40000), (12, 14), "std"), T("elem_all", (2500, 40000), (12, 14), "nostd"),
                    T("frac", (100, 2000), (2, 4), "std"), T("frac", (100, 2000), (2, 4), "nostd"),
                    T("conv", (150, 3000), (2, 4), "std"), T("conv", (150, 3000), (2, 4), "nostd")],
-        "merge": [{"family": "arith_all", "variants": ["std", "nostd"]}, {"family": "arith_new", "variants": ["std", "nostd"]}, {"family": "frac", "variants": ["std", "nostd"]},
+        "trace_env": {"MEMO_ONLY": "1"},
+        "merge": [{"family": "arith_all", "variants": ["std", "nostd"]}, {"family": "arith_new", "variants": ["std", "nostd"]},
+                  {"family": "elem_all", "variants": ["std", "nostd"]}, {"family": "frac", "variants": ["std", "nostd"]},
                   {"family": "conv", "variants": ["std", "nostd"]}, {"family": "fma", "variants": ["std", "nostd"]}],
     },
     "C12": {
